@@ -31,6 +31,13 @@ def run(check: Check, repo: Repo, tier: str) -> None:
     M.arg_normalise(check, repo)
     M.recorded_means_compared(check, repo)
     M.all_pairs(check, repo)
+    from rules import generic_rules as G
+    mm = repo.mod(M.MOD)
+    mfuncs = list(mm.functions())
+    G.worklist_return(check, mfuncs)
+    G.loop_invariant_call(check, mfuncs)
+    check.floor("LOOP-NEST", 2, "functions with nested loops in the merge rule")
+    G.mutable_class_attr(check, [mm, repo.mod("validation.validation_context")])
     S.wrapper_pairing(check, repo, [(M.MOD, "do_types_conflict")])
     from rules import kind_tables as KT
     KT.kind_table(check, repo, repo.func(M.MOD, "do_types_conflict"), "type1", "type2",
